@@ -1,246 +1,100 @@
 (* C01 (element level) -- each generated elementwise backward formula is the true derivative of
    the generated forward formula on the smooth domain, for every operator with an elementwise
-   kernel in primitiv/devices/naive/ops.  Statements only; proofs in Scalar/Deriv.v, Scalar/Pown.v.
+   kernel in primitiv/devices/naive/ops.  Statements only; proofs in Scalar/Deriv.v, Scalar/Pown.v
+   (one lemma per operator there: d_exp, d_divide_b, ...; grouped here by kernel family because
+   every Print Assumptions over the Reals costs more than a second).
    All theorems speak about Gen/ScalarGen.v, regenerated from the C++ on every check.
-   `bw_op x y gy [k]` is the increment added to gx[i]; it is called with y = the forward value. *)
+   `bw_op x y gy [k]` is the increment the kernel adds to gx[i]; Device::op_bw calls it with the
+   forward value y = fw_op x, hence the shape  is_derive fw_op x (bw_op x (fw_op x) 1)  together
+   with linearity in gy.  Domains are hypotheses (Coq totalises 1/0 and ln on x <= 0).
+   std::pow(a, b) is modelled as Rpower a b = exp (b * ln a): meaningful for a > 0 only. *)
 From Coq Require Import Reals ZArith Lra Lia.
 From Coquelicot Require Import Coquelicot.
 From PV Require Import Scalar.ScalarBase Gen.ScalarGen Scalar.Deriv Scalar.Pown.
 Local Open Scope R_scope.
 
-(* ---- unary ---- *)
-Theorem C01s_d_exp x :
-  is_derive fw_exp x (bw_exp x (fw_exp x) 1).
-Proof. exact (d_exp x). Qed.
-Print Assumptions C01s_d_exp.
+(* CPUDEV_FW_X / CPUDEV_BW_X: exp log sqrt sin cos tan tanh abs sigmoid softplus *)
+Theorem C01s_d_unary x :
+  (is_derive fw_exp x (bw_exp x (fw_exp x) 1)) /\
+  (0 < x -> is_derive fw_log x (bw_log x (fw_log x) 1)) /\
+  (0 < x -> is_derive fw_sqrt x (bw_sqrt x (fw_sqrt x) 1)) /\
+  (is_derive fw_sin x (bw_sin x (fw_sin x) 1)) /\
+  (is_derive fw_cos x (bw_cos x (fw_cos x) 1)) /\
+  (cos x <> 0 -> is_derive fw_tan x (bw_tan x (fw_tan x) 1)) /\
+  (is_derive fw_tanh x (bw_tanh x (fw_tanh x) 1)) /\
+  (x <> 0 -> is_derive fw_abs x (bw_abs x (fw_abs x) 1)) /\
+  (is_derive fw_sigmoid x (bw_sigmoid x (fw_sigmoid x) 1)) /\
+  (is_derive fw_softplus x (bw_softplus x (fw_softplus x) 1)).
+Proof. exact (d_unary_all x). Qed.
+Print Assumptions C01s_d_unary.
 
-Theorem C01s_d_log x :
-  0 < x -> is_derive fw_log x (bw_log x (fw_log x) 1).
-Proof. exact (d_log x). Qed.
-Print Assumptions C01s_d_log.
-
-Theorem C01s_d_sqrt x :
-  0 < x -> is_derive fw_sqrt x (bw_sqrt x (fw_sqrt x) 1).
-Proof. exact (d_sqrt x). Qed.
-Print Assumptions C01s_d_sqrt.
-
-Theorem C01s_d_sin x :
-  is_derive fw_sin x (bw_sin x (fw_sin x) 1).
-Proof. exact (d_sin x). Qed.
-Print Assumptions C01s_d_sin.
-
-Theorem C01s_d_cos x :
-  is_derive fw_cos x (bw_cos x (fw_cos x) 1).
-Proof. exact (d_cos x). Qed.
-Print Assumptions C01s_d_cos.
-
-Theorem C01s_d_tan x :
-  cos x <> 0 -> is_derive fw_tan x (bw_tan x (fw_tan x) 1).
-Proof. exact (d_tan x). Qed.
-Print Assumptions C01s_d_tan.
-
-Theorem C01s_d_tanh x :
-  is_derive fw_tanh x (bw_tanh x (fw_tanh x) 1).
-Proof. exact (d_tanh x). Qed.
-Print Assumptions C01s_d_tanh.
-
-Theorem C01s_d_abs x :
-  x <> 0 -> is_derive fw_abs x (bw_abs x (fw_abs x) 1).
-Proof. exact (d_abs x). Qed.
-Print Assumptions C01s_d_abs.
-
-Theorem C01s_d_sigmoid x :
-  is_derive fw_sigmoid x (bw_sigmoid x (fw_sigmoid x) 1).
-Proof. exact (d_sigmoid x). Qed.
-Print Assumptions C01s_d_sigmoid.
-
-Theorem C01s_d_softplus x :
-  is_derive fw_softplus x (bw_softplus x (fw_softplus x) 1).
-Proof. exact (d_softplus x). Qed.
-Print Assumptions C01s_d_softplus.
-
-(* ---- constant operand; _l variants are k - x, k / x, k ^ x ---- *)
-Theorem C01s_d_add_const x k :
-  is_derive (fun x => fw_add_const x k) x (bw_add_const x (fw_add_const x k) 1 k).
-Proof. exact (d_add_const x k). Qed.
-Print Assumptions C01s_d_add_const.
-
-Theorem C01s_d_subtract_const_r x k :
-  is_derive (fun x => fw_subtract_const_r x k) x (bw_subtract_const_r x (fw_subtract_const_r x k) 1 k).
-Proof. exact (d_subtract_const_r x k). Qed.
-Print Assumptions C01s_d_subtract_const_r.
-
-Theorem C01s_d_subtract_const_l x k :
-  is_derive (fun x => fw_subtract_const_l x k) x (bw_subtract_const_l x (fw_subtract_const_l x k) 1 k).
-Proof. exact (d_subtract_const_l x k). Qed.
-Print Assumptions C01s_d_subtract_const_l.
-
-Theorem C01s_d_multiply_const x k :
-  is_derive (fun x => fw_multiply_const x k) x (bw_multiply_const x (fw_multiply_const x k) 1 k).
-Proof. exact (d_multiply_const x k). Qed.
-Print Assumptions C01s_d_multiply_const.
-
-Theorem C01s_d_divide_const_r x k :
-  k <> 0 -> is_derive (fun x => fw_divide_const_r x k) x (bw_divide_const_r x (fw_divide_const_r x k) 1 k).
-Proof. exact (d_divide_const_r x k). Qed.
-Print Assumptions C01s_d_divide_const_r.
-
-Theorem C01s_d_divide_const_l x k :
-  x <> 0 -> is_derive (fun x => fw_divide_const_l x k) x (bw_divide_const_l x (fw_divide_const_l x k) 1 k).
-Proof. exact (d_divide_const_l x k). Qed.
-Print Assumptions C01s_d_divide_const_l.
-
-Theorem C01s_d_pow_const_r x k :
-  0 < x -> is_derive (fun x => fw_pow_const_r x k) x (bw_pow_const_r x (fw_pow_const_r x k) 1 k).
-Proof. exact (d_pow_const_r x k). Qed.
-Print Assumptions C01s_d_pow_const_r.
-
-Theorem C01s_d_pow_const_l x k :
-  0 < k -> is_derive (fun x => fw_pow_const_l x k) x (bw_pow_const_l x (fw_pow_const_l x k) 1 k).
-Proof. exact (d_pow_const_l x k). Qed.
-Print Assumptions C01s_d_pow_const_l.
-
-Theorem C01s_d_prelu x k :
-  x <> 0 -> is_derive (fun x => fw_prelu x k) x (bw_prelu x (fw_prelu x k) 1 k).
-Proof. exact (d_prelu x k). Qed.
-Print Assumptions C01s_d_prelu.
-
-Theorem C01s_d_elu x k :
-  x <> 0 -> is_derive (fun x => fw_elu x k) x (bw_elu x (fw_elu x k) 1 k).
-Proof. exact (d_elu x k). Qed.
-Print Assumptions C01s_d_elu.
+(* CPUDEV_FW_X_CONST / CPUDEV_BW_X_CONST; the _l variants are k - x, k / x, k ^ x *)
+Theorem C01s_d_const x k :
+  (is_derive (fun x => fw_add_const x k) x (bw_add_const x (fw_add_const x k) 1 k)) /\
+  (is_derive (fun x => fw_subtract_const_r x k) x (bw_subtract_const_r x (fw_subtract_const_r x k) 1 k)) /\
+  (is_derive (fun x => fw_subtract_const_l x k) x (bw_subtract_const_l x (fw_subtract_const_l x k) 1 k)) /\
+  (is_derive (fun x => fw_multiply_const x k) x (bw_multiply_const x (fw_multiply_const x k) 1 k)) /\
+  (k <> 0 -> is_derive (fun x => fw_divide_const_r x k) x (bw_divide_const_r x (fw_divide_const_r x k) 1 k)) /\
+  (x <> 0 -> is_derive (fun x => fw_divide_const_l x k) x (bw_divide_const_l x (fw_divide_const_l x k) 1 k)) /\
+  (0 < x -> is_derive (fun x => fw_pow_const_r x k) x (bw_pow_const_r x (fw_pow_const_r x k) 1 k)) /\
+  (0 < k -> is_derive (fun x => fw_pow_const_l x k) x (bw_pow_const_l x (fw_pow_const_l x k) 1 k)) /\
+  (x <> 0 -> is_derive (fun x => fw_prelu x k) x (bw_prelu x (fw_prelu x k) 1 k)) /\
+  (x <> 0 -> is_derive (fun x => fw_elu x k) x (bw_elu x (fw_elu x k) 1 k)).
+Proof. exact (d_const_all x k). Qed.
+Print Assumptions C01s_d_const.
 
 (* relu = prelu(.,0), lrelu = prelu(.,0.01) (tensor_funcs.cc:266-272); selu = s * elu(x,a) (contrib/functions.h:31) *)
-Theorem C01s_d_relu x :
-  x <> 0 -> is_derive (fun x => fw_prelu x 0) x (bw_prelu x (fw_prelu x 0) 1 0).
-Proof. exact (d_relu x). Qed.
-Print Assumptions C01s_d_relu.
+Theorem C01s_d_relu_lrelu_selu x a s :
+  (x <> 0 -> is_derive (fun x => fw_prelu x 0) x (bw_prelu x (fw_prelu x 0) 1 0)) /\
+  (x <> 0 -> is_derive (fun x => fw_prelu x (1 / 100)) x (bw_prelu x (fw_prelu x (1 / 100)) 1 (1 / 100))) /\
+  (x <> 0 -> is_derive (fun x => fw_multiply_const (fw_elu x a) s) x
+     (bw_elu x (fw_elu x a) (bw_multiply_const (fw_elu x a) (fw_multiply_const (fw_elu x a) s) 1 s) a)).
+Proof. exact (d_relu_lrelu_selu_all x a s). Qed.
+Print Assumptions C01s_d_relu_lrelu_selu.
 
-Theorem C01s_d_lrelu x :
-  x <> 0 -> is_derive (fun x => fw_prelu x (1 / 100)) x (bw_prelu x (fw_prelu x (1 / 100)) 1 (1 / 100)).
-Proof. exact (d_lrelu x). Qed.
-Print Assumptions C01s_d_lrelu.
+(* pown.cc: the transcribed squaring loop is x^k for EVERY int32 k (incl. min_k = -2^31), and pown_bw is its derivative *)
+Theorem C01s_pown x k :
+  int32 k ->
+  fw_pown x k = (if (0 <=? k)%Z then x ^ Z.abs_nat k else 1 / x ^ Z.abs_nat k) /\
+  fw_pown x k = powerRZ x k /\
+  (x <> 0 -> is_derive (fun x => fw_pown x k) x (bw_pown x (fw_pown x k) 1 k)) /\
+  (forall y gy, bw_pown x y gy k = gy * bw_pown x y 1 k).
+Proof. exact (pown_all x k). Qed.
+Print Assumptions C01s_pown.
 
-Theorem C01s_d_selu x a s :
-  x <> 0 -> is_derive (fun x => fw_multiply_const (fw_elu x a) s) x
-    (bw_elu x (fw_elu x a) (bw_multiply_const (fw_elu x a) (fw_multiply_const (fw_elu x a) s) 1 s) a).
-Proof. exact (d_selu x a s). Qed.
-Print Assumptions C01s_d_selu.
+(* CPUDEV_FW_AB and the hand-written add/subtract/multiply/divide/pow _bw_impl loops: both partial derivatives *)
+Theorem C01s_d_binary a b :
+  (is_derive (fun a => fw_add a b) a (bw_add_a a b (fw_add a b) 1)) /\
+  (is_derive (fun b => fw_add a b) b (bw_add_b a b (fw_add a b) 1)) /\
+  (is_derive (fun a => fw_subtract a b) a (bw_subtract_a a b (fw_subtract a b) 1)) /\
+  (is_derive (fun b => fw_subtract a b) b (bw_subtract_b a b (fw_subtract a b) 1)) /\
+  (is_derive (fun a => fw_multiply a b) a (bw_multiply_a a b (fw_multiply a b) 1)) /\
+  (is_derive (fun b => fw_multiply a b) b (bw_multiply_b a b (fw_multiply a b) 1)) /\
+  (b <> 0 -> is_derive (fun a => fw_divide a b) a (bw_divide_a a b (fw_divide a b) 1)) /\
+  (b <> 0 -> is_derive (fun b => fw_divide a b) b (bw_divide_b a b (fw_divide a b) 1)) /\
+  (0 < a -> is_derive (fun a => fw_pow a b) a (bw_pow_a a b (fw_pow a b) 1)) /\
+  (0 < a -> is_derive (fun b => fw_pow a b) b (bw_pow_b a b (fw_pow a b) 1)).
+Proof. exact (d_binary_all a b). Qed.
+Print Assumptions C01s_d_binary.
 
-(* ---- pown: the squaring loop is x^k for every int32 k incl. min_k, and its derivative ---- *)
-Theorem C01s_pown_loop_is_power x k :
-  int32 k -> fw_pown x k = if (0 <=? k)%Z then x ^ Z.abs_nat k else 1 / x ^ Z.abs_nat k.
-Proof. exact (fw_pown_spec x k). Qed.
-Print Assumptions C01s_pown_loop_is_power.
-
-Theorem C01s_pown_powerRZ x k :
-  int32 k -> fw_pown x k = powerRZ x k.
-Proof. exact (fw_pown_powerRZ x k). Qed.
-Print Assumptions C01s_pown_powerRZ.
-
-Theorem C01s_d_pown x k :
-  int32 k -> x <> 0 -> is_derive (fun x => fw_pown x k) x (bw_pown x (fw_pown x k) 1 k).
-Proof. exact (d_pown x k). Qed.
-Print Assumptions C01s_d_pown.
-
-(* ---- two tensor operands: both partial derivatives ---- *)
-Theorem C01s_d_add_a a b :
-  is_derive (fun a => fw_add a b) a (bw_add_a a b (fw_add a b) 1).
-Proof. exact (d_add_a a b). Qed.
-Print Assumptions C01s_d_add_a.
-
-Theorem C01s_d_add_b a b :
-  is_derive (fun b => fw_add a b) b (bw_add_b a b (fw_add a b) 1).
-Proof. exact (d_add_b a b). Qed.
-Print Assumptions C01s_d_add_b.
-
-Theorem C01s_d_subtract_a a b :
-  is_derive (fun a => fw_subtract a b) a (bw_subtract_a a b (fw_subtract a b) 1).
-Proof. exact (d_subtract_a a b). Qed.
-Print Assumptions C01s_d_subtract_a.
-
-Theorem C01s_d_subtract_b a b :
-  is_derive (fun b => fw_subtract a b) b (bw_subtract_b a b (fw_subtract a b) 1).
-Proof. exact (d_subtract_b a b). Qed.
-Print Assumptions C01s_d_subtract_b.
-
-Theorem C01s_d_multiply_a a b :
-  is_derive (fun a => fw_multiply a b) a (bw_multiply_a a b (fw_multiply a b) 1).
-Proof. exact (d_multiply_a a b). Qed.
-Print Assumptions C01s_d_multiply_a.
-
-Theorem C01s_d_multiply_b a b :
-  is_derive (fun b => fw_multiply a b) b (bw_multiply_b a b (fw_multiply a b) 1).
-Proof. exact (d_multiply_b a b). Qed.
-Print Assumptions C01s_d_multiply_b.
-
-Theorem C01s_d_divide_a a b :
-  b <> 0 -> is_derive (fun a => fw_divide a b) a (bw_divide_a a b (fw_divide a b) 1).
-Proof. exact (d_divide_a a b). Qed.
-Print Assumptions C01s_d_divide_a.
-
-Theorem C01s_d_divide_b a b :
-  b <> 0 -> is_derive (fun b => fw_divide a b) b (bw_divide_b a b (fw_divide a b) 1).
-Proof. exact (d_divide_b a b). Qed.
-Print Assumptions C01s_d_divide_b.
-
-Theorem C01s_d_pow_a a b :
-  0 < a -> is_derive (fun a => fw_pow a b) a (bw_pow_a a b (fw_pow a b) 1).
-Proof. exact (d_pow_a a b). Qed.
-Print Assumptions C01s_d_pow_a.
-
-Theorem C01s_d_pow_b a b :
-  0 < a -> is_derive (fun b => fw_pow a b) b (bw_pow_b a b (fw_pow a b) 1).
-Proof. exact (d_pow_b a b). Qed.
-Print Assumptions C01s_d_pow_b.
-
-(* ---- linearity in gy: with the above, bw is the vector-Jacobian product ---- *)
-Theorem C01s_bw_linear_unary x y gy :
-  bw_abs x y gy = gy * bw_abs x y 1 /\
-  bw_exp x y gy = gy * bw_exp x y 1 /\
-  bw_log x y gy = gy * bw_log x y 1 /\
-  bw_sin x y gy = gy * bw_sin x y 1 /\
-  bw_cos x y gy = gy * bw_cos x y 1 /\
-  bw_tan x y gy = gy * bw_tan x y 1 /\
-  bw_tanh x y gy = gy * bw_tanh x y 1 /\
-  bw_sqrt x y gy = gy * bw_sqrt x y 1 /\
-  bw_sigmoid x y gy = gy * bw_sigmoid x y 1 /\
-  bw_softplus x y gy = gy * bw_softplus x y 1.
-Proof. exact (bw_linear_unary x y gy). Qed.
-Print Assumptions C01s_bw_linear_unary.
-
-Theorem C01s_bw_linear_const x y gy k :
-  bw_add_const x y gy k = gy * bw_add_const x y 1 k /\
-  bw_subtract_const_r x y gy k = gy * bw_subtract_const_r x y 1 k /\
-  bw_subtract_const_l x y gy k = gy * bw_subtract_const_l x y 1 k /\
-  bw_multiply_const x y gy k = gy * bw_multiply_const x y 1 k /\
-  bw_divide_const_r x y gy k = gy * bw_divide_const_r x y 1 k /\
-  bw_divide_const_l x y gy k = gy * bw_divide_const_l x y 1 k /\
-  bw_pow_const_r x y gy k = gy * bw_pow_const_r x y 1 k /\
-  bw_pow_const_l x y gy k = gy * bw_pow_const_l x y 1 k /\
-  bw_prelu x y gy k = gy * bw_prelu x y 1 k /\
-  bw_elu x y gy k = gy * bw_elu x y 1 k.
-Proof. exact (bw_linear_const x y gy k). Qed.
-Print Assumptions C01s_bw_linear_const.
-
-Theorem C01s_bw_linear_binary a b y gy :
-  bw_add_a a b y gy = gy * bw_add_a a b y 1 /\
-  bw_add_b a b y gy = gy * bw_add_b a b y 1 /\
-  bw_subtract_a a b y gy = gy * bw_subtract_a a b y 1 /\
-  bw_subtract_b a b y gy = gy * bw_subtract_b a b y 1 /\
-  bw_multiply_a a b y gy = gy * bw_multiply_a a b y 1 /\
-  bw_multiply_b a b y gy = gy * bw_multiply_b a b y 1 /\
-  bw_divide_a a b y gy = gy * bw_divide_a a b y 1 /\
-  bw_divide_b a b y gy = gy * bw_divide_b a b y 1 /\
-  bw_pow_a a b y gy = gy * bw_pow_a a b y 1 /\
-  bw_pow_b a b y gy = gy * bw_pow_b a b y 1.
-Proof. exact (bw_linear_binary a b y gy). Qed.
-Print Assumptions C01s_bw_linear_binary.
-
-Theorem C01s_bw_linear_pown x y gy k :
-  bw_pown x y gy k = gy * bw_pown x y 1 k.
-Proof. exact (bw_linear_pown x y gy k). Qed.
-Print Assumptions C01s_bw_linear_pown.
+(* linearity in the upstream gradient: with the above, bw is the vector-Jacobian product *)
+Theorem C01s_bw_linear x y gy k a b :
+  (bw_abs x y gy = gy * bw_abs x y 1 /\ bw_exp x y gy = gy * bw_exp x y 1 /\ bw_log x y gy = gy * bw_log x y 1 /\
+   bw_sin x y gy = gy * bw_sin x y 1 /\ bw_cos x y gy = gy * bw_cos x y 1 /\ bw_tan x y gy = gy * bw_tan x y 1 /\
+   bw_tanh x y gy = gy * bw_tanh x y 1 /\ bw_sqrt x y gy = gy * bw_sqrt x y 1 /\
+   bw_sigmoid x y gy = gy * bw_sigmoid x y 1 /\ bw_softplus x y gy = gy * bw_softplus x y 1) /\
+  (bw_add_const x y gy k = gy * bw_add_const x y 1 k /\ bw_subtract_const_r x y gy k = gy * bw_subtract_const_r x y 1 k /\
+   bw_subtract_const_l x y gy k = gy * bw_subtract_const_l x y 1 k /\ bw_multiply_const x y gy k = gy * bw_multiply_const x y 1 k /\
+   bw_divide_const_r x y gy k = gy * bw_divide_const_r x y 1 k /\ bw_divide_const_l x y gy k = gy * bw_divide_const_l x y 1 k /\
+   bw_pow_const_r x y gy k = gy * bw_pow_const_r x y 1 k /\ bw_pow_const_l x y gy k = gy * bw_pow_const_l x y 1 k /\
+   bw_prelu x y gy k = gy * bw_prelu x y 1 k /\ bw_elu x y gy k = gy * bw_elu x y 1 k) /\
+  (bw_add_a a b y gy = gy * bw_add_a a b y 1 /\ bw_add_b a b y gy = gy * bw_add_b a b y 1 /\
+   bw_subtract_a a b y gy = gy * bw_subtract_a a b y 1 /\ bw_subtract_b a b y gy = gy * bw_subtract_b a b y 1 /\
+   bw_multiply_a a b y gy = gy * bw_multiply_a a b y 1 /\ bw_multiply_b a b y gy = gy * bw_multiply_b a b y 1 /\
+   bw_divide_a a b y gy = gy * bw_divide_a a b y 1 /\ bw_divide_b a b y gy = gy * bw_divide_b a b y 1 /\
+   bw_pow_a a b y gy = gy * bw_pow_a a b y 1 /\ bw_pow_b a b y gy = gy * bw_pow_b a b y 1).
+Proof. exact (bw_linear_all x y gy k a b). Qed.
+Print Assumptions C01s_bw_linear.
 
 (* non-vacuity: the domain hypotheses are satisfiable, and the formulas are not constant *)
 Example C01s_nonvacuous :
